@@ -228,9 +228,102 @@ def shard_wrappers(item):
     return T
 
 
+class ExitArm(object):
+    """requests an exit from inside the cost function (as a signal arriving mid-iteration would), once, when armed"""
+
+    def __init__(self, solver):
+        self.solver, self.armed, self.fired_at = solver, False, None
+
+    def __call__(self, x):
+        if self.armed and self.fired_at is None:
+            self.solver._EARLYEXIT = True
+            self.fired_at = int(self.solver.generations)
+
+
+FREQS = [None, 1, 2, 3]
+EXIT_ITERS = [1, 2, 3, 4, 5, 6]
+
+
+def shard_savefreq(item):
+    """(D) exit requested while iteration j runs, with a periodic restart file of frequency f, under a Step loop and under
+    Solve: no iteration may begin after j, and a SolverInterrupt message must stay true"""
+    import os
+    cfg = item
+    T = Tally()
+    tmp = tempfile.mkdtemp(prefix='c05_')
+    try:
+        for f in FREQS:
+            for j in EXIT_ITERS:
+                for mode in ('Step', 'Solve', 'Step+idle'):
+                    lab = solverlab.Lab(dict(cfg, instrument=False), tmp)
+                    s = lab.solver
+                    with lab._env():
+                        if f is not None:
+                            s.SetSaveFrequency(f, os.path.join(tmp, 'restart_%d.pkl' % os.getpid()))
+                        s.SetEvaluationLimits(14, None)
+                    arm = ExitArm(s)
+                    lab.cost.watch = arm
+                    case = {'cfg': cfg, 'savefreq': f, 'exit_during': j, 'mode': mode, 'part': 'D'}
+                    sig = {'solver': cfg['solver'], 'savefreq': f is not None, 'mode': mode, 'exit_from': 'cost'}
+                    T.count('traces')
+                    if mode.startswith('Step'):
+                        rows = []
+                        for i in range(j + 3):
+                            if i == j:
+                                arm.armed = True
+                            n0 = len(lab.cost.log)
+                            with lab._env():
+                                msg = s.Step()
+                            T.count('transitions')
+                            rows.append((i, len(lab.cost.log) - n0, msg, bool(s._EARLYEXIT)))
+                            if mode == 'Step+idle' and i >= j:
+                                with lab._env():
+                                    info = s.Terminated(info=True)      # looking at the stop state changes nothing
+                        if arm.fired_at is None:
+                            T.hist('D_exit_never_fired', 1); continue
+                        for i, calls, msg, flag in rows[j + 1:]:
+                            if calls or not msg:
+                                T.violate(dict(sig, clause='began_iteration_when_stopped', reason='exit'), case,
+                                          'exit requested inside the cost during Step %d (save frequency %r), yet Step %d made %d cost calls and returned %r | solver=%s'
+                                          % (j, f, i, calls, msg, cfg['solver']))
+                                break
+                            if msg.startswith('SolverInterrupt') and not flag:
+                                T.violate(dict(sig, clause='message_untrue', kind='SolverInterrupt'), case,
+                                          'Step %d returned %r but the exit flag is no longer set (save frequency %r) | solver=%s' % (i, msg[:60], f, cfg['solver']))
+                                break
+                        T.nontriv(('D', cfg['solver'], f, j, mode, tuple(r[1] for r in rows)))
+                    else:
+                        seen = []
+                        def cb(x):
+                            seen.append(len(lab.cost.log))
+                            if len(seen) == j:          # the callback ending iteration j-1 (0 = the initial evaluation)
+                                arm.armed = True
+                        with lab._env():
+                            s.Solve(callback=cb)
+                            msg = s.Terminated(info=True)
+                        T.count('transitions', len(seen))
+                        if arm.fired_at is None:
+                            T.hist('D_exit_never_fired', 1); continue
+                        if len(seen) > j + 1 or int(s.generations) > j:
+                            T.violate(dict(sig, clause='began_iteration_when_stopped', reason='exit'), case,
+                                      'exit requested inside the cost during iteration %d of Solve (save frequency %r), yet %d iterations ran (generations=%d, message %r) | solver=%s'
+                                      % (j, f, len(seen), s.generations, (msg or '')[:50], cfg['solver']))
+                        elif not msg:
+                            T.violate(dict(sig, clause='solve_returned_unstopped'), case, 'Solve returned but Terminated(info=True) is empty | solver=%s' % cfg['solver'])
+                        elif msg.startswith('SolverInterrupt') and not s._EARLYEXIT:
+                            T.violate(dict(sig, clause='message_untrue', kind='SolverInterrupt'), case,
+                                      'Solve stopped with %r but the exit flag is no longer set (save frequency %r) | solver=%s' % (msg[:60], f, cfg['solver']))
+                        T.nontriv(('D', cfg['solver'], f, j, mode, len(seen)))
+                    T.state(('D', cfg['solver'], f, j, mode, int(s.generations), len(lab.cost.log), bool(s._EARLYEXIT)))
+    finally:
+        shutil.rmtree(tmp, ignore_errors=True)
+    T.sample({'cfg': cfg, 'savefreq': 1, 'exit_during': 2, 'mode': 'Solve', 'part': 'D'})
+    return T
+
+
 def _dispatch(item):
     kind, payload = item
-    return {'A': shard_general, 'B': shard_struct, 'C': shard_wrappers}[kind](payload)
+    return {'A': shard_general, 'B': shard_struct, 'C': shard_wrappers, 'D': shard_savefreq}[kind](payload)
 
 
 def configs(ctx):
@@ -249,7 +342,8 @@ def run(ctx):
     items = [('A', (cfg, depth, (i,))) for cfg in gen_cfgs for i in range(len(ALPHABET))]
     items += [('B', (cfg, k)) for cfg in cfgs for k in (0, 1, 2, 3)]
     items += [('C', (w, c)) for w in ('fmin', 'fmin_powell', 'diffev', 'diffev2') for c in ('sphere', 'steps')]
-    ctx.bounds = {'depth_general': depth, 'alphabet': ALPHABET, 'limit_values_g': GS, 'limit_values_e': ES,
+    items += [('D', cfg) for cfg in cfgs if cfg['term'] == 'never']
+    ctx.bounds = {'save_frequencies': FREQS, 'exit_during_iteration': EXIT_ITERS, 'depth_general': depth, 'alphabet': ALPHABET, 'limit_values_g': GS, 'limit_values_e': ES,
                   'struct_prefix_steps': [0, 1, 2, 3], 'tails': TAILS, 'configs': len(cfgs)}
     ctx.rule = ("(A) all op sequences <= depth over the 10-op alphabet; (B) Step^k . SetEvaluationLimits(g,e,new) . tail for all "
                 "5x4x2 limit triples, k<=3 and 9 tails; (C) 4 wrappers x 30 limit pairs x 2 costs. distinct_nontrivial counts "
@@ -261,6 +355,11 @@ def run(ctx):
 
 def replay(case):
     T = Tally()
+    if case.get('part') == 'D':
+        global FREQS, EXIT_ITERS
+        FREQS, EXIT_ITERS = [case['savefreq']], [case['exit_during']]
+        T2 = shard_savefreq(case['cfg'])
+        return [v['detail'] for v in T2.violations.values() if v['case'].get('mode') == case['mode']]
     if 'wrapper' in case:
         # re-run the single wrapper configuration
         global _one
